@@ -106,7 +106,7 @@ class Result:
         self.resets = []       # reset events of all executions
 
 
-def run_check(cd, tier, seed):
+def run_check(cd, tier, seed, write=True):
     t0 = time.time()
     tp = [time.time()]
 
@@ -333,5 +333,35 @@ def run_check(cd, tier, seed):
     cov['drift'] = res.drift[:5]
     wall = time.time() - t0
     cov['candidate_violations'] = dict(per_text)
-    core.write_evidence(cd.pid, tier, seed, cd.level, cov, wall, len(res.violations), cd.assumptions)
+    res.cov = cov
+    if write:
+        core.write_evidence(cd.pid, tier, seed, cd.level, cov, wall, len(res.violations), cd.assumptions)
     return res
+
+
+def run_parts(pid, defs, tier, seed):
+    """A property decided by several slices (harness + specification each): run them all, merge verdicts and evidence."""
+    t0 = time.time()
+    total = Result()
+    cov = {'samples': [], 'parts': [], 'states': 0, 'transitions': 0, 'traces_validated_against_impl': 0, 'evaluations': 0,
+           'distinct_executions': 0, 'distinct_nontrivial': 0, 'trusted_base': []}
+    assumptions = []
+    for cd in defs:
+        log('=== part %s (%s)' % (cd.harness, type(cd).__name__))
+        r = run_check(cd, tier, seed, write=False)
+        total.violations += r.violations
+        total.drift += r.drift
+        total.known += r.known
+        total.notes += r.notes
+        c = r.cov
+        for k in ('states', 'transitions', 'traces_validated_against_impl', 'evaluations', 'distinct_executions', 'distinct_nontrivial'):
+            cov[k] += c.get(k, 0)
+        cov['samples'] += c.get('samples', [])[:2]
+        cov['trusted_base'] = c.get('trusted_base', [])
+        cov['rule'] = c.get('rule', '')
+        cov['parts'].append({k: v for k, v in c.items() if k not in ('samples', 'trusted_base', 'rule')} | {'harness': cd.harness})
+        for a in cd.assumptions:
+            if a not in assumptions:
+                assumptions.append(a)
+    core.write_evidence(pid, tier, seed, 'model_checking', cov, time.time() - t0, len(total.violations), assumptions)
+    return total
